@@ -21,12 +21,12 @@ def case_table(rep):
     """G: exhaustive table of _checkJump (the specification's InLim decides the expected outcome)"""
     from harness import build  # noqa
     from pygom.model import stochastic_simulation as ss
-    kinds = [(None, None), (0, None), (None, 5), (2, 5)]
-    vals = [-1, 0, 1, 2, 3, 5, 6]
+    kinds = [(None, None), (0, None), (None, 5), (2, 5), (None, 0), (-3, 0), (0, 0)]      # limits that are exactly 0 included
+    vals = [-4, -3, -1, 0, 1, 2, 3, 5, 6]
     n = 0
     for l1, l2 in itertools.product(kinds, kinds):
         for v1, v2 in itertools.product(vals, vals):
-            x = np.array([3.0, 3.0])
+            x = np.array([3.0 if (l1[1] is None or l1[1] >= 3) else float(l1[1]), 3.0 if (l2[1] is None or l2[1] >= 3) else float(l2[1])])
             xn = np.array([float(v1), float(v2)])
             exp_ok = all((lo is None or v >= lo) and (hi is None or v <= hi) for v, (lo, hi) in zip((v1, v2), (l1, l2)))
             try:
